@@ -103,3 +103,54 @@ Section Combined.
     split; [exact Hl1|]. rewrite E1, <- E2. exact Hl2.
   Qed.
 End Combined.
+
+(* ---- the layout is what the guide describes: one entry per node in pre-order; the parent field is 0
+   for a top-level node and otherwise the position of an EARLIER entry, namely the entry of the node's
+   parent; a data field that is a number is the position of an earlier entry with the same data_id and kind *)
+Lemma lay_entries_length c ser km vm : forall l prev, List.length (lay_entries c ser km vm prev l) = List.length l.
+Proof. induction l as [|[[a b] t] l IH]; intros prev; cbn; [reflexivity|]. now rewrite IH. Qed.
+
+Theorem layout_shape c ser km vm f :
+  List.length (layout c ser km vm f) = size_f f /\
+  map q_node (lay_f 0 1 f) = pre_f f /\
+  map q_pos (lay_f 0 1 f) = seq 1 (size_f f) /\
+  (forall q, In q (lay_f 0 1 f) -> q_ppos q = 0 \/ (1 <= q_ppos q /\ q_ppos q < q_pos q)).
+Proof.
+  split; [unfold layout; rewrite lay_entries_length, <- (map_length q_pos), lay_f_positions, seq_length; reflexivity|].
+  split; [apply lay_f_nodes|]. split; [apply lay_f_positions|].
+  intros q Hq. destruct (lay_f_range f 0 1 q Hq) as [_ [H|H]]; [now left|now right].
+Qed.
+
+(* the parent field names the entry of the node's parent *)
+Lemma lay_parent : forall t pp p q, In q (lay pp p t) ->
+  q = (pp, p, t) \/ exists y, In y (lay pp p t) /\ q_pos y = q_ppos q /\ In (q_node q) (rch (q_node y)).
+Proof.
+  induction t as [id i ch IH] using rt_ind'. intros pp p q Hq. rewrite lay_unfold in *. cbn [rch] in *.
+  destruct Hq as [<-|Hq]; [now left|]. right.
+  assert (G : forall g p0, Forall (fun t => forall pp p q, In q (lay pp p t) ->
+                 q = (pp, p, t) \/ exists y, In y (lay pp p t) /\ q_pos y = q_ppos q /\ In (q_node q) (rch (q_node y))) g ->
+              In q (lay_f p p0 g) ->
+              (q_ppos q = p /\ In (q_node q) g) \/
+              exists y, In y (lay_f p p0 g) /\ q_pos y = q_ppos q /\ In (q_node q) (rch (q_node y))).
+  { induction g as [|c g IHg]; intros p0 Hall Hi; [contradiction|]. inversion Hall as [|? ? Hc Hg]; subst.
+    cbn [lay_f] in Hi. apply in_app_or in Hi as [Hi|Hi].
+    - destruct (Hc p p0 q Hi) as [->|(y & Hy & H1 & H2)]; [left; split; [reflexivity|now left]|].
+      right. exists y. split; [cbn [lay_f]; apply in_or_app; now left|auto].
+    - destruct (IHg (p0 + size c) Hg Hi) as [[H1 H2]|(y & Hy & H1 & H2)]; [left; split; [exact H1|now right]|].
+      right. exists y. split; [cbn [lay_f]; apply in_or_app; now right|auto]. }
+  destruct (G ch (S p) IH Hq) as [[H1 H2]|(y & Hy & H1 & H2)].
+  - exists (pp, p, T id i ch). split; [now left|]. split; [symmetry; exact H1|exact H2].
+  - exists y. split; [now right|auto].
+Qed.
+
+Theorem layout_parent f : forall q, In q (lay_f 0 1 f) ->
+  (q_ppos q = 0 /\ In (q_node q) f) \/
+  exists y, In y (lay_f 0 1 f) /\ q_pos y = q_ppos q /\ In (q_node q) (rch (q_node y)).
+Proof.
+  generalize 1 as p0. induction f as [|c g IH]; intros p0 q Hq; [contradiction|]. cbn [lay_f] in Hq.
+  apply in_app_or in Hq as [Hq|Hq].
+  - destruct (lay_parent c 0 p0 q Hq) as [->|(y & Hy & H1 & H2)]; [left; split; [reflexivity|now left]|].
+    right. exists y. split; [cbn [lay_f]; apply in_or_app; now left|auto].
+  - destruct (IH (p0 + size c) q Hq) as [[H1 H2]|(y & Hy & H1 & H2)]; [left; split; [exact H1|now right]|].
+    right. exists y. split; [cbn [lay_f]; apply in_or_app; now right|auto].
+Qed.
